@@ -104,6 +104,11 @@ let obu_str (i : obu_info) =
   Printf.sprintf "%s %s %s %s %s" (hex_of_n i.obu_ty) (s01 i.obu_ext) (nat_s i.obu_header_size)
     (hex_of_n i.obu_payload_size) (hex_of_n i.obu_total_size)
 
+let vcodec_s = function H264 -> "h264" | H265 -> "h265" | Av1 -> "av1" | Vp9 -> "vp9"
+let acodec_s = function
+  | Aac Lc -> "aac-lc" | Aac Main -> "aac-main" | Aac Ssr -> "aac-ssr" | Aac Ltp -> "aac-ltp"
+  | Aac He -> "aac-he" | Aac Hev2 -> "aac-hev2" | Opus -> "opus" | NoAudio -> "none"
+
 let vres (r : vresult) : string =
   let l xs = String.concat "," (List.map (fun x -> string_of_int (int_of_n x)) xs) in
   Printf.sprintf "%s m%s e%s" (s01 r.vr_valid) (l r.vr_messages) (l r.vr_errors)
@@ -143,6 +148,10 @@ let run_fn (name : string) (args : string list) : string =
        | Vp9Key b -> "ok " ^ s01 b)
   | "is_valid_vp9_frame" -> s01 (is_valid_vp9_frame (d ()))
   | "tick" -> hex_of_n (tick (decode64 (n_of_hex (List.nth args 0))))
+  | "parse_video_codec" -> opt vcodec_s (parse_video_codec (d ()))
+  | "parse_audio_codec" -> opt acodec_s (parse_audio_codec (d ()))
+  | "video_codec_name" -> hex_of_bytes (video_codec_name (vcodec (List.nth args 0)))
+  | "audio_codec_name" -> hex_of_bytes (audio_codec_name (acodec (List.nth args 0)))
   | "validate_video_config" ->
       (match args with
        | [c; w; h; f] -> vres (validate_video_config (vcodec c) (n_of_hex w) (n_of_hex h) (decode64 (n_of_hex f)))
